@@ -25,6 +25,8 @@ const SIM_COMMON: &[&str] = &[
     "fault points: cache/memo lookups that report a miss, tables/caches that grow early (rsdd::verif::buggify)",
     "initial capacities of unique tables and lossy caches (knobs)",
     "process environment of a run: a fresh OS thread per run (library thread-local state starts pristine; its destructors run before the arena is emptied), first library use of the process outside any arena",
+    "earlier work on the run's thread: one run in four starts with a seeded tour of the other library families at other sizes (prelude)",
+    "address re-use after free (allocator seam, deterministic LIFO per size class): only in the ffi world's manager-lifetime runs",
 ];
 
 pub fn spec(id: &str) -> Option<PropSpec> {
@@ -33,7 +35,7 @@ pub fn spec(id: &str) -> Option<PropSpec> {
         "C01" => PropSpec {
             id: "C01",
             batches: vec![b("bdd", 60_000, 3_000_000, true), b("bddmid", 15_000, 600_000, true), b("bddbig", 0, 200, false)],
-            rule: "one case = one seeded run: a generated history of 10-300 builder operations by 1-4 logical callers on one RobddBuilder (random order, cache kind, capacities, fault rates, placement). Distinct = distinct event-log hash (the log contains every result's truth table and raw node address and every fault fired). Non-trivial = at least one non-constant result AND at least one fault fired or table growth / displacement / lossy-cache overwrite happened.",
+            rule: "one case = one seeded run: a generated history of 10-300 builder operations by 1-4 logical callers on one RobddBuilder (random order, cache kind, capacities, fault rates, placement). Distinct = distinct event-log hash (the log contains every result's truth table and raw node address and every fault fired). Non-trivial = at least one non-constant result AND at least one fault fired or table growth / displacement / lossy-cache overwrite happened. bddmid also issues compile_cnf on seeded clause lists (narrow, 20-70-literal and 129-260-literal clauses).",
             states_measure: "distinct truth tables (Boolean functions over <= 7 variables) produced as results",
             probe_prefixes: &["Ite", "BddIte", "BddCond", "BddGet", "Table", "Lru"],
             assumptions: &[
@@ -47,7 +49,7 @@ pub fn spec(id: &str) -> Option<PropSpec> {
         "C02" => PropSpec {
             id: "C02",
             batches: vec![b("table", 40_000, 2_000_000, false), b("bdd", 50_000, 2_000_000, true), b("bddmid", 10_000, 400_000, true), b("bddbig", 16, 600, false)],
-            rule: "bdd world: as C01, plus canonicity map, node-shape checks, sub-diagram canonicity, end-of-run re-lookup of every live node; table world: one case = a history of get_or_insert/grow/get_by_hash/iter calls on the real robin-hood table with simulator-chosen hash values (uniform, clustered at slot 0, at the last slots, all equal, pointer-like), capacities 1..64 and the shipped 131072 (>= 91751 keys). Distinct = distinct event-log hash. Non-trivial: bdd as C01; table = at least 2 distinct keys stored.",
+            rule: "bdd world: as C01, plus canonicity map, node-shape checks, sub-diagram canonicity, end-of-run re-lookup of every live node; table world: one case = a history of get_or_insert/grow/get_by_hash/iter calls on the real robin-hood table with simulator-chosen hash values (uniform, clustered at slot 0, at the last slots, all equal, pointer-like), capacities 1..64 and the shipped 131072 (>= 91751 keys). Distinct = distinct event-log hash. Non-trivial: bdd as C01; table = at least 2 distinct keys stored. bddmid also issues compile_cnf on seeded clause lists (narrow, 20-70-literal and 129-260-literal clauses with repeated / complementary literals).",
             states_measure: "distinct truth tables produced (bdd world) / distinct final key counts (table world)",
             probe_prefixes: &["Table", "BddGet", "BddIte", "BddCond", "Ite"],
             assumptions: &[
@@ -62,7 +64,7 @@ pub fn spec(id: &str) -> Option<PropSpec> {
         "C16" => PropSpec {
             id: "C16",
             batches: vec![b("lru", 60_000, 3_000_000, false), b("bdd", 30_000, 1_500_000, true), b("bddmid", 8_000, 300_000, true), b("sdd", 30_000, 1_500_000, true), b("sddmid", 8_000, 300_000, true), b("semhash", 8_000, 400_000, true)],
-            rule: "lru world: one case = an insert/get history on the real util::lru::Lru with adversarial colliding hashes, capacities 2^0..2^5 and forced growth; bdd world: the same history is executed on the builder under test (lossy cache, tiny capacities, forgetting/growth faults) and on a fault-free twin that caches every application; every result must have the same canonical structural signature; sdd world: same with apply-/ite-cache forgetting against a fault-free twin (compressed and uncompressed); semhash world: the hash-identified SDD builder with its product-hash apply cache forgetting against a fault-free twin (same function). Distinct = distinct event-log hash. Non-trivial: lru = at least one hit and two keys; bdd = non-constant result and a fault/knob effect.",
+            rule: "lru world: one case = an insert/get history on the real util::lru::Lru with adversarial colliding hashes, capacities 2^0..2^5 and forced growth; bdd world: the same history is executed on the builder under test (lossy cache, tiny capacities, forgetting/growth faults) and on a fault-free twin that caches every application; every result must have the same canonical structural signature; sdd world: same with apply-/ite-cache forgetting against a fault-free twin (compressed and uncompressed); semhash world: the hash-identified SDD builder with its product-hash apply cache forgetting against a fault-free twin (same function). Distinct = distinct event-log hash. Non-trivial: lru = at least one hit and two keys; bdd = non-constant result and a fault/knob effect. In the shipped-size lru scenario every hot key has shadow keys with the same hash (same slot at every capacity).",
             states_measure: "distinct truth tables produced (bdd) / distinct hit counts (lru)",
             probe_prefixes: &["Lru", "BddIteCacheHit", "Ite"],
             assumptions: &[
@@ -76,7 +78,7 @@ pub fn spec(id: &str) -> Option<PropSpec> {
         "C09" => PropSpec {
             id: "C09",
             batches: vec![b("sat", 150_000, 4_000_000, false)],
-            rule: "one case = one seeded run: a random CNF (usually <= 6 variables and <= 8 clauses of <= 4 literals, one run in four up to 10 variables, 14 clauses and 8 literals per clause; incl. empty, unit, duplicate and tautological clauses) and a history of up to 50 (thorough: 120) decide/pop calls by 1-3 logical callers on one real SATSolver, including refused (UNSAT) decisions followed by more work. Distinct = distinct event-log hash. Non-trivial = at least one accepted decision on a non-empty CNF.",
+            rule: "one case = one seeded run: a random CNF (usually <= 6 variables and <= 8 clauses of <= 4 literals, one run in four up to 10 variables, 14 clauses and 8 literals per clause; incl. empty, unit, duplicate and tautological clauses) and a history of up to 50 (thorough: 120) decide/pop calls by 1-3 logical callers on one real SATSolver, including refused (UNSAT) decisions followed by more work. Distinct = distinct event-log hash. Non-trivial = at least one accepted decision on a non-empty CNF. One long-clause run in four draws a clause of 33-90 literals.",
             states_measure: "distinct solver hash values (= residual formulas) visited",
             probe_prefixes: &["Up", "SatHash"],
             assumptions: &[
@@ -107,7 +109,7 @@ pub fn spec(id: &str) -> Option<PropSpec> {
         "C03" => PropSpec {
             id: "C03",
             batches: vec![b("sdd", 60_000, 3_000_000, true), b("sddmid", 12_000, 500_000, true)],
-            rule: "one case = one seeded run: a generated history of 8-160 operations by 1-4 logical callers on one CompressionSddBuilder (vtree: right-linear, left-linear, balanced, random shape, random leaf labelling, 1-7 variables; compression on or off; tiny-to-shipped table capacities; apply-/ite-cache forgetting and early table growth; placement). Distinct = distinct event-log hash. Non-trivial = at least one result that is a decision node AND a fault fired or a table grew/displaced.",
+            rule: "one case = one seeded run: a generated history of 8-160 operations by 1-4 logical callers on one CompressionSddBuilder (vtree: right-linear, left-linear, balanced, random shape, random leaf labelling, 1-7 variables; compression on or off; tiny-to-shipped table capacities; apply-/ite-cache forgetting and early table growth; placement). Distinct = distinct event-log hash. Non-trivial = at least one result that is a decision node AND a fault fired or a table grew/displaced. One sdd run in 500 is a counter-period history (a quiet phase of 2^8 / 2^16 conditionings between two conditionings of the same nodes); sddmid builds multiplexers (wide raw element lists with coinciding / complementary subs).",
             states_measure: "distinct truth tables produced as results",
             probe_prefixes: &["Sdd", "Table", "IteIntro", "IteReorder", "IteStd"],
             assumptions: &["sdd world: functions over at most 7 variables (truth-table oracle); sddmid world: 8-20 variables judged on a sampled sub-cube of 512 points, condition/exists/compose only on its 7 free variables", "compose judged against its documented definition", "seeded sampling, not exhaustive"],
@@ -127,7 +129,7 @@ pub fn spec(id: &str) -> Option<PropSpec> {
         "C10" => PropSpec {
             id: "C10",
             batches: vec![b("query", 40_000, 1_200_000, false)],
-            rule: "one case = one seeded run: a builder (BDD, compressed SDD, or top-down decision-DNNF over up to 3 CNFs) is populated by a short history so that handles share nodes (incl. sub-diagrams and complements), then 1-4 logical callers interleave up to 44 (thorough: 74) queries of different result types (wmc in Real / 3 finite fields / Rational / Complex / ExpectedUtility / Polynomial, evaluate, count_nodes, semantic_hash, cached_semantic_hash, bdd_fold, marginal_map, meu, bb, smooth, condition, condition_model), some repeated immediately; each answer is compared with the same query on a freshly built copy in a brand-new builder and all scratch slots of all nodes are inspected after every call. Distinct = distinct event-log hash. Non-trivial = at least 2 queries of at least 2 kinds on a non-constant diagram.",
+            rule: "one case = one seeded run: a builder (BDD, compressed SDD, or top-down decision-DNNF over up to 3 CNFs) is populated by a short history so that handles share nodes (incl. sub-diagrams and complements), then 1-4 logical callers interleave up to 44 (thorough: 74) queries of different result types (wmc in Real / 3 finite fields / Rational / Complex / ExpectedUtility / Polynomial, evaluate, count_nodes, semantic_hash, cached_semantic_hash, bdd_fold, marginal_map, meu, bb, smooth, condition, condition_model), some repeated immediately; each answer is compared with the same query on a freshly built copy in a brand-new builder and all scratch slots of all nodes are inspected after every call. Distinct = distinct event-log hash. Non-trivial = at least 2 queries of at least 2 kinds on a non-constant diagram. One small BDD run in 60 is a counter-period history repeating one query kind (conditioning or any read-only query); one hashing/counting query in four is asked under a weight table derived from the run's table by editing one variable, and every other 65-244-variable run consists of such queries.",
             states_measure: "distinct sets of query kinds exercised in one run (per builder variant)",
             probe_prefixes: &["ScratchClear", "BddCond", "DnnfCond"],
             assumptions: &[
@@ -158,7 +160,7 @@ pub fn spec(id: &str) -> Option<PropSpec> {
         "C18" => PropSpec {
             id: "C18",
             batches: vec![b("ffi", 60_000, 3_000_000, false)],
-            rule: "one case = one seeded run: a manager is created through the C interface (default order, linear order, or custom permutation via var_order_new) and 5-65 (thorough: 125) further extern \"C\" calls are issued (var/new_var/new_label/true/false/negate/and/or/ite/compose/compile_cnf via cnf_new+literal_new, eq, is_true/false/const, topvar/low/high, count_nodes, model_count, wmc real/complex/polynomial with weight tables built through the C setters and read back through the getters, to_json, print_bdd, scratch set/get/clear); a native RobddBuilder<AllIteTable> twin receives the corresponding Rust calls. Distinct = distinct event-log hash. Non-trivial = at least 3 calls and a non-constant diagram.",
+            rule: "one case = one seeded run: a manager is created through the C interface (default order, linear order, or custom permutation via var_order_new) and 5-65 (thorough: 125) further extern \"C\" calls are issued (var/new_var/new_label/true/false/negate/and/or/ite/compose/compile_cnf via cnf_new+literal_new, eq, is_true/false/const, topvar/low/high, count_nodes, model_count, wmc real/complex/polynomial with weight tables built through the C setters and read back through the getters, to_json, print_bdd, scratch set/get/clear); a native RobddBuilder<AllIteTable> twin receives the corresponding Rust calls. Distinct = distinct event-log hash. Non-trivial = at least 3 calls and a non-constant diagram. One small-manager run in 300 is a marathon (1100-2000 blocks on one manager, a fresh root counted per block, old roots counted again); one in 60 is a manager-lifetime run (free_bdd_manager, a new manager on re-used addresses, the same call kinds with other arguments, weight tables untouched).",
             states_measure: "distinct Boolean functions built through the C interface",
             probe_prefixes: &["BddIte", "Table"],
             assumptions: &[
